@@ -184,3 +184,28 @@ Proof. exact busy_state_owned. Qed.
 Example C18_down_nonvacuous : Down (fst (step busy_state Shutdown)) /\ G (mm (fst (step busy_state Shutdown))) /\
   forgets (mm (fst (step busy_state Shutdown))) <> [].
 Proof. exact down_nonvacuous. Qed.
+
+(* ---- round 7: the model's transport constants and message-ID successor are the translated source's
+   (Gen/c03_constants.v <- numbers/constants.py TransportTuning, microseconds = seconds * 10^6; Gen/c14_message_id.v <- MessageManager._next_message_id) *)
+From Verif Require Gen.c03_constants Gen.c14_message_id.
+From Verif Require Proofs.C18Tie.
+Theorem C18_exchange_lifetime_is_source :
+  QArith_base.Qeq (QArith_base.inject_Z EXCHANGE_LIFETIME) (QArith_base.Qmult (c03_constants.EXCHANGE_LIFETIME c03_constants.default_transport_tuning) (QArith_base.inject_Z 1000000)).
+Proof. exact C18Tie.exchange_lifetime_is_source. Qed.
+Print Assumptions C18_exchange_lifetime_is_source.
+Theorem C18_empty_ack_delay_is_source :
+  QArith_base.Qeq (QArith_base.inject_Z EMPTY_ACK_DELAY) (QArith_base.Qmult (c03_constants.tt_EMPTY_ACK_DELAY c03_constants.default_transport_tuning) (QArith_base.inject_Z 1000000)).
+Proof. exact C18Tie.empty_ack_delay_is_source. Qed.
+Print Assumptions C18_empty_ack_delay_is_source.
+Theorem C18_observation_reset_time_is_source :
+  OBSERVATION_RESET_TIME = c03_constants.tt_OBSERVATION_RESET_TIME c03_constants.default_transport_tuning * 1000000.
+Proof. exact C18Tie.observation_reset_time_is_source. Qed.
+Print Assumptions C18_observation_reset_time_is_source.
+Theorem C18_max_retransmit_is_source :
+  MAX_RETRANSMIT = c03_constants.tt_MAX_RETRANSMIT c03_constants.default_transport_tuning.
+Proof. exact C18Tie.max_retransmit_is_source. Qed.
+Print Assumptions C18_max_retransmit_is_source.
+Theorem C18_next_message_id_is_source :
+  forall s, c14_message_id.next_message_id {| c14_message_id.mmids_message_id := message_id s |} = Ok ({| c14_message_id.mmids_message_id := message_id (fst (_next_message_id s)) |}, snd (_next_message_id s)).
+Proof. exact C18Tie.next_message_id_is_source. Qed.
+Print Assumptions C18_next_message_id_is_source.
